@@ -44,7 +44,8 @@ OP_SPACE = {
     'si_power': [0, -2, 3],
     'f_max': [196.1e12, 193.3e12],
     'restrict': ['none', 'variety_list', 'booster', 'preamp', 'booster+preamp', 'variety_list+booster'],
-    'graph': ['P2', 'P2_inline'],
+    'graph': ['P2', 'P2_inline', 'P2_fused'],
+    'amp_voa': [0.0, 2.5],
     'order': ['01', '10'],
 }
 TABLES = {
@@ -101,11 +102,17 @@ def topology(case, lib):
     amp = {'type': 'Edfa'}
     if r['variety_list'] is not None:
         amp['variety_list'] = r['variety_list']
+    if case.get('amp_voa'):
+        # operator-imposed output VOA on an amplifier whose model is left to auto-design
+        amp['operational'] = {'out_voa': case['amp_voa']}
     f = lambda L: c.fiber(L, loss=lc)       # noqa
     if case['graph'] == 'P2':
         fwd = [f(case['length'])]
-        if r['variety_list'] is not None:
-            fwd = [dict(amp), f(case['length'])]     # operator-placed booster slot with its own variety list
+        if r['variety_list'] is not None or case.get('amp_voa'):
+            fwd = [dict(amp), f(case['length'])]     # operator-placed booster slot with its own variety list / VOA
+    elif case['graph'] == 'P2_fused':
+        # an operator-placed amplifier slot (model left to auto-design) that follows a fused element, not a fibre
+        fwd = [f(case['length']), c.fused(0.5), dict(amp)]     # auto-design adds no amplifier after a fused element itself
     else:
         fwd = [f(case['length']), dict(amp), f(80)]
     return c.build_topology(['A', 'B'], [('A', 'B', fwd, [c.fiber(83)])], roadm_params=rp)
@@ -216,8 +223,11 @@ def run_one(case):
                         nl += float(m.loss)
                     r, tie = round_to_step((nl - span.span_loss_ref) * span.power_slope, step)
                     rule = min(hi, max(lo, r))
-                gain_t = acc + rule - net_prev
-                power_t = pref_tot + rule
+                own_voa = float((u.get('operational') or {}).get('out_voa') or 0.0)
+                gain_t = acc + rule + own_voa - net_prev
+                power_t = pref_tot + rule + own_voa
+                if own_voa:
+                    tags['operator-voa-on-auto-amplifier'] = 1
                 where = (f'{n.uid} in {start.uid}->{end.uid}: required gain {gain_t:.3f} dB, total power {power_t:.3f} dBm; '
                          f'library {lib} (nf variant {case["nf_variant"]}); chosen {chosen}')
                 # permitted set by precedence
@@ -307,9 +317,10 @@ def main(rep, tier, seed):
     libs = [list(x) for r in (1, 2, 3) for x in itertools.combinations(NAMES, r)]
     if tier == 'thorough':
         libs += [list(x) for x in itertools.combinations(NAMES, 4)]
-    sp = engine.Space(OP_SPACE)
+    bases = [{}, {'graph': 'P2_inline', 'amp_voa': 2.5}, {'graph': 'P2_fused', 'length': 100}]
+    sp = engine.Space(OP_SPACE, bases=bases)
     d = 1 if tier == 'quick' else 2
-    ops = [{k: x[k] for k in OP_SPACE} for x in sp.enumerate(d)]
+    ops = [{k: x[k] for k in OP_SPACE} for x in sp.enumerate(d, bases=bases)]
     cases = []
     for i, lib in enumerate(libs):
         for op in ops:
@@ -319,7 +330,7 @@ def main(rep, tier, seed):
     results, stats = engine.run_pool('checks.c10', cases, horizon=120)
     rep.absorb(results)
     rep.cov['bound'] = (f'{len(libs)} libraries (every subset of size 1-{3 if tier == "quick" else 4} of {len(NAMES)} archetypes) x '
-                        f'{len(ops)} operating points (<= {d} deviation(s) over {list(OP_SPACE)})')
+                        f'{len(ops)} operating points (<= {d} deviation(s) from the base points {bases} over {list(OP_SPACE)})')
     rep.cov['space_size'] = len(cases)
     rep.cov['exhaustive'] = not stats['budget_hit'] and len(results) == len(cases)
     rep.cov['rule'] = ('a case = one synthetic library + one P2 topology designed by the real designed_network; transitions = '
